@@ -3,7 +3,7 @@
 import json, subprocess
 CLAIMED = {
  "C11": dict(
-  technique="deterministic simulation with fault injection (seeded search over byte-stream segmentations, delays and single corruptions; real ADNL client vs independent spec server)",
+  technique="deterministic simulation with fault injection (seeded search over byte-stream segmentations, delays, single corruptions, server-initiated drops with client reconnects, connect-context deadlines; real ADNL client vs independent spec server; free-running -race executions with concurrent senders)",
   text="Seeded exploration: tens of thousands of whole-connection executions per minute of the real liteclient handshake/framing code against an independently written ADNL server over a simulated TCP stream with seeded segmentation, latency and exactly one corruption per run; oracles: handshake interoperates, per-direction payload sequences are exact, nothing at or after an altered byte is ever delivered, length bounds 64..8 MiB. Exploration is the right level: the property quantifies over stream cuts, packet sequences and corruption positions, which is a fault/schedule space to sample, not a finite space to enumerate.",
   note="Trusted: the independent server's reading of the ADNL-over-TCP description (sim/adnl), golang.org/x/crypto/curve25519, SHA-256 collision freedom, Go's testing/synctest fake clock. Sampling, not proof. Recovery after a corrupted stream is not asserted (the property does not promise it).",
   ref="5.1"),
